@@ -171,6 +171,20 @@ def run(tier):
         ctx.sample({"source": r["job"][2], "emitted": (r.get("emitted") or "").strip()[:160], "status": r["status"]})
     poke_threshold(ctx)
     hbuff_prologue(ctx)
+    # operands that are record fields read by name (the default colour display.hfore, the sound octave play.octo) have the
+    # value the runtime stored only if the program's record declarations agree field for field with the library's
+    from vf.core import ContractCtx
+    from vf.props import c14
+
+    types = {}
+    for src in ("10 HCIRCLE ( 1 , 2 ) , 3", '10 PLAY "A" : SOUND 1 , 2'):
+        r = c14.check_one(("layout", src))
+        for k, v in (r.get("types") or {}).items():
+            types.setdefault(k, v)
+    if not {"display_t", "play_t"} <= set(types):
+        ctx.harness_gap(f"prologue record types not found: {sorted(types)}")
+    else:
+        c14.record_types(ContractCtx(ctx, "assumed:"), {k: types[k] for k in ("display_t", "play_t")})
     ctx.add_solver_stats(smt.STATS.export())
     ctx.extra["solver"] = {"z3": smt.z3_version()}
     ctx.explanation = "each program is one device statement; equality of every bound argument term with the reference operand is one obligation (identity or z3)"
